@@ -88,7 +88,10 @@ func (c15Sim) Gen(prop, tier string, r *rand.Rand) interface{} {
 	default:
 		c.Mode = "wire"
 		c.Cmd = Cmd{SrcRemote: true, Archive: genArchiveSel(r, len(l.Archs))}
-		switch r.IntN(4) {
+		switch r.IntN(5) {
+		case 4:
+			// the destination of sum-diff is read through the server
+			c.Cmd = Cmd{Kind: "sum-diff", DstRemote: true, Item: "v", Src: "*.wsp", Dest: "file.wsp", Archive: genArchiveSel(r, len(l.Archs))}
 		case 0:
 			c.Cmd.Kind, c.Cmd.Src = "view", "v/file.wsp"
 		case 1:
@@ -418,7 +421,7 @@ func containsStr(s, sub string) bool {
 // c15Wire: the response body of the first request of the command is damaged.
 func c15Wire(e *Env, c *C15Case) {
 	switch c.Cmd.Kind {
-	case "view", "view-raw", "sum", "diff":
+	case "view", "view-raw", "sum", "diff", "sum-diff":
 	default:
 		e.Skip("invalid-case")
 		return
@@ -427,7 +430,12 @@ func c15Wire(e *Env, c *C15Case) {
 	d := c.File
 	d.Base = "dst"
 	buildFile(e, d)
+	serveBase = "src"
+	if c.Cmd.DstRemote && !c.Cmd.SrcRemote {
+		serveBase = "dst"
+	}
 	r := newCliRunner(e, c.SchedSeed, 0, true)
+	serveBase = "src"
 	defer r.close()
 	// learn the size of the undamaged response
 	var bodyLen int64 = -1
